@@ -11,9 +11,11 @@ import (
 	"math/big"
 	"os"
 	"path/filepath"
+	"unsafe"
 
 	"github.com/piotrnar/gocoin/lib/btc"
 	"github.com/piotrnar/gocoin/lib/chain"
+	"github.com/piotrnar/gocoin/lib/others/memory"
 	"github.com/piotrnar/gocoin/lib/utxo"
 
 	"verif/harness/ledger"
@@ -28,15 +30,18 @@ type NodeOpts struct {
 	ClientRecovery bool // recover the way client/main.go does (do_the_blocks) instead of ParseTillBlock
 	LibraryTail    bool // the genesis selects the rule set NewChainExt configures by itself: let NewChainExt re-apply the blocks (DoNotRescan=false)
 	NetPath        bool // PreCheckBlock/AcceptHeader ... PostCheckBlock/CommitBlock instead of CheckBlock/AcceptBlock
+	RealAlloc      bool // UTXO records live in lib/others/memory (as in the client unless UseGoHeap), not on the Go heap
 	Callbacks      utxo.CallbackFunctions
 	BlockMined     func(*btc.Block)
 	BlockUndone    func(*btc.Block)
 }
 
 type Node struct {
-	Ch   *chain.Chain
-	Dir  string
-	Opts NodeOpts
+	Ch    *chain.Chain
+	Dir   string
+	Opts  NodeOpts
+	Alloc *memory.Allocator
+	ballast []*[]byte
 }
 
 // freshProcess restores the package-level state a new OS process starts with.
@@ -45,6 +50,11 @@ func freshProcess() {
 	utxo.OneUtxoRec = utxo.OneUtxoRecU
 	utxo.Serialize = utxo.SerializeU
 	chain.AbortNow = false
+	utxo.Memory_Malloc = func(le int) *[]byte {
+		p := make([]byte, le)
+		return &p
+	}
+	utxo.Memory_Free = func(*[]byte) {}
 }
 
 // writeGenesisSnapshot writes the 48-byte UTXO.db of the empty genesis state,
@@ -79,11 +89,18 @@ func Boot(dir string, o NodeOpts) *Node {
 	if dir[len(dir)-1] != '/' {
 		dir += "/"
 	}
+	var alloc *memory.Allocator
+	if o.RealAlloc {
+		// client/common/config.go: Memory = memory.NewAllocator(); utxo.Memory_Malloc = Memory.Malloc; ...
+		alloc = memory.NewAllocator()
+		utxo.Memory_Malloc = alloc.Malloc
+		utxo.Memory_Free = alloc.Free
+	}
 	libTail := o.LibraryTail && !o.ClientRecovery
 	ch := chain.NewChainExt(dir, btc.NewUint256(o.Genesis[:]), false,
 		&chain.NewChanOpts{DoNotRescan: !libTail, UTXOCallbacks: o.Callbacks, BlockMinedCB: o.BlockMined, BlockUndoneCB: o.BlockUndone},
 		&chain.BlockDBOpts{MaxCachedBlocks: o.CacheBlocks, MaxDataFileSize: o.MaxFileSize, CompressOnDisk: o.CompressBlocks})
-	n := &Node{Ch: ch, Dir: dir, Opts: o}
+	n := &Node{Ch: ch, Dir: dir, Opts: o, Alloc: alloc}
 	applyConsensus(ch, o.P)
 	if libTail {
 		return n // NewChainExt has done the recovery itself
@@ -184,6 +201,75 @@ func (n *Node) Deliver(raw []byte) (err error, stage string, maybeLater bool) {
 	return nil, "", false
 }
 
+// Ballast fills the current page of the allocator's small size classes up to the last slot and frees a
+// few of the filling allocations again.  A fresh allocator hands out slots by bumping a pointer through a
+// 1 MiB page and never looks at its free lists before the page is full; a node with a few hundred records would
+// therefore never get a freed slot back, and a record that lib/utxo freed too early (or twice) would stay intact
+// by luck.  With the ballast in place every Free is followed by a Malloc that reuses the slot (LIFO), as in a
+// node whose unspent set has been churning for a while.  all=false picks about a third of the classes.
+func (n *Node) Ballast(rng interface {
+	Intn(int) int
+	Chance(float64) bool
+}, all bool) (classes int) {
+	a := n.Alloc
+	if a == nil {
+		return 0
+	}
+	addr := func(b *[]byte) uintptr { return uintptr(unsafe.Pointer(unsafe.SliceData((*b)[:1]))) }
+	const page = 1 << 20
+	for sz := 48; sz <= 400; sz += 8 {
+		if !all && !rng.Chance(0.35) {
+			continue
+		}
+		b0, b1 := a.Malloc(sz), a.Malloc(sz)
+		a0, a1 := addr(b0), addr(b1)
+		n.ballast = append(n.ballast, b0, b1)
+		if a1 <= a0 || a1-a0 > 4096 || a0/page != a1/page {
+			continue // not two consecutive bump allocations (the class is already past its first page)
+		}
+		slot := a1 - a0
+		end := (a1/page + 1) * page
+		rest := int((end - (a1 - 24 + slot)) / slot)
+		var mine []*[]byte
+		prev, bump := a1, true
+		for i := 0; i < rest; i++ {
+			b := a.Malloc(sz)
+			if addr(b) != prev+slot {
+				// b0/b1 came from a free list (two sizes of one class): not a bump sequence after all
+				n.ballast = append(n.ballast, b)
+				bump = false
+				break
+			}
+			mine = append(mine, b)
+			prev = addr(b)
+		}
+		if !bump {
+			n.ballast = append(n.ballast, mine...)
+			continue
+		}
+		k := 40 + rng.Intn(160)
+		for i := 0; i < k && len(mine) > 0; i++ {
+			j := rng.Intn(len(mine))
+			a.Free(mine[j])
+			mine[j] = mine[len(mine)-1]
+			mine = mine[:len(mine)-1]
+		}
+		n.ballast = append(n.ballast, mine...)
+		classes++
+	}
+	return classes
+}
+
+// DefragMem is client/common.DefragUTXOMem: compact the allocator's pages, telling the UTXO map where records moved.
+func (n *Node) DefragMem() int {
+	if n.Alloc == nil {
+		return 0
+	}
+	return n.Alloc.DefragAllImproved(func(oldRec, newRec *[]byte) {
+		n.Ch.Unspent.Relocate(oldRec, newRec)
+	})
+}
+
 func (n *Node) Tip() (h [32]byte, height uint32) {
 	l := n.Ch.LastBlock()
 	return l.BlockHash.Hash, l.Height
@@ -210,4 +296,10 @@ func (n *Node) Dump() map[ledger.OutPoint]ledger.Coin {
 
 func (n *Node) Close() {
 	n.Ch.Close()
+	if n.Alloc != nil {
+		for _, b := range n.ballast {
+			n.Alloc.Free(b)
+		}
+		n.ballast = nil
+	}
 }
